@@ -35,7 +35,7 @@ VARIABLES req,      \* [X |-> BOOLEAN, Y |-> BOOLEAN]   srtp_required (fixed at 
           wire,     \* ghost: every datagram emitted so far  [tr, cls, gen, gate]
           sinks,    \* ghost: every delivery so far          [sink, auth, gen]
           hist,     \* actions taken, each with what the contract expects / allows for the step
-          rep       \* every inbound action of the behaviour is a burst of `rep` packets of its class: a gate that
+          rep       \* every traffic action of the behaviour is a burst of `rep` packets of its class: a gate that
                     \* lets the n-th unauthenticated packet through (rate-limited handling, counters, caches) is
                     \* reached with rep >= n; the contract is the same for every packet of the burst
 
@@ -95,9 +95,11 @@ Step(op, w, d, auth) ==
 RECURSIVE Times(_, _)
 Times(sq, n) == IF n = 0 THEN <<>> ELSE sq \o Times(sq, n - 1)
 
-\* n = 1 for local operations, rep for an inbound burst (each packet of the burst does what the first does)
+\* traffic actions (sends and receives) are bursts of rep packets, each doing what the first does; control
+\* actions (keys, bridge, close) happen once
+BurstOps == {"S", "SR", "SC", "BYE", "RcR", "RcC", "RvR", "RfR", "RvC", "RfC"}
 Emit(op, w, d, auth) ==
-  LET n == IF auth = "none" THEN 1 ELSE rep IN
+  LET n == IF op \in BurstOps THEN rep ELSE 1 IN
   /\ wire' = wire \o Times(w, n)
   /\ sinks' = sinks \o Times([i \in 1..Len(d) |-> [sink |-> d[i], auth |-> auth, gen |-> gen["X"]]], n)
   /\ hist' = Append(hist, Step(op, w, d, auth))
